@@ -37,7 +37,7 @@ func init() {
 		Quick: 60000, Thorough: 4000000,
 		Run:  runC10,
 		Rule: "one run = histories of json calls (Marshal, Encoder.Encode, Unmarshal, Parse with a ParseFlags subset, Decoder.Decode×k over a simulated reader, Tokenizer pass, scribble over an input, recheck) for 1..3 simulated goroutines plus pool policy and schedule, from the tape; non-trivial = at least one fault fired (an input was scribbled while results from it were live, a pooled buffer was reused after poison, the Decoder refilled its buffer between two results, or a context switch happened); distinct = distinct hash of (operations, documents, flags, schedule trace)",
-		FaultKinds: []string{"scribble-input-with-live-results", "pooled-buffer-poisoned-and-reused", "decoder-refill-between-results", "decoder-reader-chunked", "context-switch", "zero-copy-flags", "loose-capacity-input",
+		FaultKinds: []string{"scribble-input-with-live-results", "destination-decoded-into-again", "pooled-buffer-poisoned-and-reused", "decoder-refill-between-results", "decoder-reader-chunked", "context-switch", "zero-copy-flags", "loose-capacity-input",
 			"pool-policy:lifo", "pool-policy:fifo", "pool-policy:random", "pool-policy:never-reuse", "pool-policy:drop-on-put"},
 		ProbeNames: []string{"ops", "inputs-checked-unchanged", "result-leaves-tracked", "leaves-aliasing-input(allowed)", "leaves-rechecked-after-scribble", "marshal-results-rechecked", "decoder-values", "decoder-zero-copy-values-checked-until-next-decode", "encoder-inputs-checked-unchanged", "tokenizer-strings", "writer-buffers-checked-stable-during-write"},
 		Real:       []string{"json.Marshal/Encoder/Unmarshal/Parse/Decoder/Tokenizer compiled from /repo's working tree with sync redirected to the shim"},
@@ -95,6 +95,9 @@ type c10Op struct {
 	loose   bool
 	flags   json.ParseFlags
 	target  int // scribble: index of an earlier op of the same task
+	reuse   int // decode ops: index of an earlier decode op (same type) whose destination is decoded into again; -1 = fresh
+	dest    reflect.Value
+	users   *[]*c10Op // every decode that was given this destination so far
 	// decoder
 	stream  []byte
 	script  []int
@@ -198,7 +201,14 @@ func collectLeaves(v reflect.Value, path string, out *[]leaf, depth int) {
 	}
 }
 
+var c10LeafTypes = []reflect.Type{reflect.TypeOf(json.RawMessage(nil)), reflect.TypeOf(""), reflect.TypeOf(json.Number("")), reflect.TypeOf([]byte(nil)),
+	reflect.TypeOf((*any)(nil)).Elem(), reflect.TypeOf(map[string]string(nil)), reflect.TypeOf([]string(nil)), reflect.TypeOf([]json.RawMessage(nil)), reflect.TypeOf(map[string]json.RawMessage(nil))}
+
 func c10Types(t *tape.Tape) reflect.Type {
+	if t.Chance(1, 5) {
+		// top-level destinations that are themselves leaves (or thin wrappers)
+		return c10LeafTypes[t.Intn(len(c10LeafTypes))]
+	}
 	switch t.Pick(5, 3, 1, 1) {
 	case 0:
 		return reflect.TypeOf(C10Doc{})
@@ -321,6 +331,21 @@ func c10GenTask(r *core.Run, t *tape.Tape) []*c10Op {
 			op.val, op.valCopy = c10Value(t, op.ty)
 		case c10Unmarshal, c10Parse, c10Tokenizer:
 			op.ty = c10Types(t)
+			op.reuse = -1
+			if op.kind != c10Tokenizer && t.Chance(1, 3) {
+				// decode into the destination of an earlier decode again: the
+				// values handed out by the earlier call must survive that too
+				var cands []int
+				for k, p := range ops {
+					if (p.kind == c10Unmarshal || p.kind == c10Parse) && p.ty != nil {
+						cands = append(cands, k)
+					}
+				}
+				if len(cands) > 0 {
+					op.reuse = cands[t.Intn(len(cands))]
+					op.ty = ops[op.reuse].ty
+				}
+			}
 			doc := c10Doc(t, op.ty, true)
 			if t.Chance(1, 4) {
 				doc = append(doc, "  \n"...)
@@ -414,31 +439,43 @@ func (tr *c10TaskRes) checkInput(op *c10Op, when string) {
 func (tr *c10TaskRes) track(opIdx int, op *c10Op, v reflect.Value, what string, untilNext bool) []leaf {
 	var ls []leaf
 	collectLeaves(v, what, &ls, 0)
-	var base, end uintptr
+	// the inputs this destination was decoded from: this call's, and — when the
+	// destination is decoded into again — those of the earlier calls, whose
+	// zero-copy leftovers (merged map entries, untouched fields) legitimately
+	// still alias *their* input
+	chain := []*c10Op{}
 	if op.buf != nil {
-		base = uintptr(unsafe.Pointer(&op.buf.All[0]))
-		end = base + uintptr(len(op.buf.All))
+		chain = append(chain, op)
+	}
+	if op.users != nil {
+		chain = append(chain, *op.users...)
 	}
 	for i := range ls {
 		l := &ls[i]
 		l.op = opIdx
 		l.snap = append([]byte(nil), l.view...)
 		p := uintptr(unsafe.Pointer(&l.view[0]))
-		if op.buf != nil && p >= base && p < end {
+		for _, o := range chain {
+			base := uintptr(unsafe.Pointer(&o.buf.All[0]))
+			end := base + uintptr(len(o.buf.All))
+			if p < base || p >= end {
+				continue
+			}
 			l.inInput = true
 			allowed := false
 			switch l.kind {
 			case leafString, leafKey:
-				allowed = op.flags&json.DontCopyString != 0
+				allowed = o.flags&json.DontCopyString != 0
 			case leafNumber:
-				allowed = op.flags&json.DontCopyNumber != 0
+				allowed = o.flags&json.DontCopyNumber != 0
 			case leafRaw:
-				allowed = op.flags&json.DontCopyRawMessage != 0
+				allowed = o.flags&json.DontCopyRawMessage != 0
 			}
 			if !allowed {
-				tr.failf("alias-without-flag:"+leafNames[l.kind], "%s (flags %#x): decoded %s at %s shares memory with the input buffer although its zero-copy flag is not set: %q", c10OpNames[op.kind], uint32(op.flags), leafNames[l.kind], l.path, clip(l.view, 60))
+				tr.failf("alias-without-flag:"+leafNames[l.kind], "%s (flags %#x): decoded %s at %s shares memory with an input buffer although the zero-copy flag for it was not set on the call that was given that buffer: %q", c10OpNames[op.kind], uint32(op.flags), leafNames[l.kind], l.path, clip(l.view, 60))
 			}
 			tr.probes["leaves-aliasing-input(allowed)"]++
+			break
 		}
 	}
 	tr.probes["result-leaves-tracked"] += int64(len(ls))
@@ -497,6 +534,16 @@ func c10Exec(task int, ops []*c10Op, tr *c10TaskRes) {
 				tr.faults["loose-capacity-input"]++
 			}
 			x := reflect.New(op.ty)
+			if op.reuse >= 0 && ops[op.reuse].dest.IsValid() {
+				x = ops[op.reuse].dest
+				op.users = ops[op.reuse].users
+				tr.faults["destination-decoded-into-again"]++
+			}
+			op.dest = x
+			if op.users == nil {
+				op.users = &[]*c10Op{}
+			}
+			*op.users = append(*op.users, op)
 			var err error
 			if op.kind == c10Unmarshal {
 				err = json.Unmarshal(in, x.Interface())
@@ -665,7 +712,7 @@ func runC10(r *core.Run) {
 		}
 		for k, v := range results[i].faults {
 			r.Faults[k] += v
-			if k == "scribble-input-with-live-results" || k == "decoder-refill-between-results" {
+			if k == "scribble-input-with-live-results" || k == "decoder-refill-between-results" || k == "destination-decoded-into-again" {
 				r.NonTrivial = true
 			}
 		}
